@@ -73,7 +73,7 @@ class Lock:
 
 def translate():
     out = {}
-    for script in ("gen_init.py", "gen_grammar.py", "gen_sizes.py", "gen_caches.py", "gen_family.py", "gen_ctor.py"):
+    for script in ("gen_init.py", "gen_grammar.py", "gen_sizes.py", "gen_caches.py", "gen_family.py", "gen_symbols.py", "gen_ctor.py"):
         path = os.path.join(VERIF, "translate", script)
         if not os.path.exists(path):
             continue
